@@ -12,7 +12,8 @@ EXPLANATION = (
     "handlers). The escape set at function exit must be empty. WHOCALL checks that listing "
     "cells, header time/step and t2incon values are converted by these readers and that no bare "
     "float()/int() is applied to file text outside a try that handles ValueError. The numeric "
-    "value returned for each rendering style is not decided.")
+    "value returned for each rendering style is not decided, except the structural NORMFLOW clause: every fallback "
+    "conversion sees the fully normalised text and the two sign fallbacks have the same shape.")
 
 ALL = '*'
 HIER = {   # exception -> ancestors
@@ -236,6 +237,137 @@ def rule_exc(run):
     run.assume("the argument is a str (the property quantifies over text)")
 
 
+TRANSFORMS = {'strip': 'strip', 'lower': 'lower'}
+
+
+def _chain_transforms(e, env):
+    """transforms applied to the text an expression denotes: (set of transforms) or None if not derived from the text"""
+    if isinstance(e, ast.Name):
+        return env.get(e.id)
+    if isinstance(e, ast.Call) and isinstance(e.func, ast.Attribute) and e.func.attr == 'join' and len(e.args) == 1 \
+       and isinstance(e.args[0], (ast.List, ast.Tuple)):
+        parts = [_chain_transforms(x, env) for x in e.args[0].elts]
+        parts = [p for p in parts if p is not None]
+        if not parts: return None
+        out = set(parts[0])
+        for p in parts[1:]: out &= p
+        return out
+    if isinstance(e, ast.Call) and isinstance(e.func, ast.Attribute):
+        base = _chain_transforms(e.func.value, env)
+        if base is None: return None
+        m = e.func.attr
+        if m == 'strip' and not e.args: return base | set(['strip'])
+        if m == 'lower' and not e.args: return base | set(['lower'])
+        if m == 'replace' and len(e.args) == 2 and all(const_str(a) is not None for a in e.args):
+            a, b = const_str(e.args[0]), const_str(e.args[1])
+            if a.lower() == 'd' and b.lower() == 'e': return base | set(['d2e'])
+            if a == ' ' and b == '': return base | set(['noblank'])
+            return base
+        if m == 'join' and len(e.args) == 1 and isinstance(e.args[0], (ast.List, ast.Tuple)):
+            parts = [_chain_transforms(x, env) for x in e.args[0].elts]
+            parts = [p for p in parts if p is not None]
+            if not parts: return None
+            out = set(parts[0])
+            for p in parts[1:]: out &= p
+            return out
+        return base
+    if isinstance(e, ast.Subscript):
+        return _chain_transforms(e.value, env)
+    if isinstance(e, ast.Call) and isinstance(e.func, ast.Attribute) is False:
+        return None
+    return None
+
+
+def rule_normflow(run):
+    run.rule('NORMFLOW', 'every conversion attempt after the first sees the text stripped, lower-cased, with d->e and '
+             'embedded blanks removed; the two exponent re-insertion fallbacks are siblings of one shape', floor=3)
+    prog = run.prog
+    need = {'fortran_float': set(['strip', 'lower', 'd2e', 'noblank']), 'fortran_int': set(['strip', 'noblank'])}
+    for name in ('fortran_float', 'fortran_int'):
+        fi = prog.func('fixed_format_file.' + name)
+        attempts = []      # (call node, transforms)
+
+        def cannot_raise(st):
+            # assignments from str methods on the text
+            if isinstance(st, ast.Assign):
+                return not any(isinstance(c, ast.Call) and isinstance(c.func, ast.Name) for c in ast.walk(st.value))
+            return False
+
+        def walk(stmts, env, depth):
+            """returns env after the block (None if it always leaves); records conversion attempts"""
+            for st in stmts:
+                if isinstance(st, ast.Try):
+                    before_raising = []
+                    e2 = dict(env)
+                    for b in st.body:
+                        if not cannot_raise(b): before_raising.append(dict(e2))
+                        r = walk([b], e2, depth)
+                        if r is None: break
+                        e2 = r
+                    # handler entry: the text as it is before any statement of the body that can raise
+                    henv = None
+                    for x in before_raising:
+                        henv = x if henv is None else dict((k, (henv[k] & x[k]) if henv.get(k) is not None and x.get(k) is not None else None)
+                                                           for k in set(henv) | set(x))
+                    henv = henv if henv is not None else dict(env)
+                    for h in st.handlers: walk(h.body, dict(henv), depth + 1)
+                    env = e2
+                    continue
+                if isinstance(st, ast.If):
+                    walk(st.body, dict(env), depth); r = walk(st.orelse, dict(env), depth)
+                    continue
+                for c in ast.walk(st):
+                    if isinstance(c, ast.Call) and isinstance(c.func, ast.Name) and c.func.id in ('float', 'int') and c.args:
+                        attempts.append((c, _chain_transforms(c.args[0], env), depth))
+                if isinstance(st, ast.Assign) and isinstance(st.targets[0], ast.Name):
+                    t = _chain_transforms(st.value, env)
+                    env = dict(env); env[st.targets[0].id] = t
+                if isinstance(st, ast.Return): return None
+            return env
+        walk(fi.node.body, {'s': set()}, 0)
+        if len(attempts) < 2:
+            run.unknown('fixed_format_file.%s :: conversion attempts' % name, 'only %d attempts found' % len(attempts), where=fi.where()); continue
+        for i, (c, t, depth) in enumerate(attempts[1:], 1):
+            key = 'fixed_format_file.%s :: attempt #%d %s' % (name, i + 1, norm(c)[:60])
+            if t is None:
+                run.unknown(key, 'argument is not derived from the text', where=fi.where(c)); continue
+            missing = sorted(need[name] - t)
+            if missing:
+                run.violated(key, 'this fallback converts text that has not been through %s: a field combining an embedded blank '
+                             '(or D exponent / upper case) with the form this fallback repairs reads as not-a-number' % missing, where=fi.where(c))
+            else: run.ok(key, sorted(t), where=fi.where(c))
+    # sibling shape of the two exponent re-insertion fallbacks
+    fi = prog.func('fixed_format_file.fortran_float')
+    sib = []
+    for c in ast.walk(fi.node):
+        if isinstance(c, ast.Call) and call_name(c) == 'replace' and len(c.args) == 2 and const_str(c.args[0]) in ('-', '+'):
+            sib.append(c)
+    key = 'fixed_format_file.fortran_float :: sign fallbacks protect the leading sign alike'
+    if len(sib) != 2:
+        run.unknown(key, '%d sign-replacing fallbacks found (2 expected)' % len(sib), where=fi.where()); return
+
+    def protects(c):
+        # the replace applies to s[1:] and the result is re-joined with s[0]
+        v = c.func.value
+        return isinstance(v, ast.Subscript) and isinstance(v.slice, ast.Slice) and v.slice.lower is not None and \
+            isinstance(v.slice.lower, ast.Constant) and v.slice.lower.value == 1 and v.slice.upper is None
+    p = [protects(c) for c in sib]
+    if p[0] == p[1] == True: run.ok(key, where=fi.where(sib[0]))
+    elif p[0] != p[1]:
+        bad = sib[p.index(False)]
+        run.violated(key, 'the %r fallback rewrites the whole text (`%s`) while its sibling leaves the first character alone: a mantissa '
+                     'with an explicit leading %r is turned into an exponent marker and reads as not-a-number'
+                     % (const_str(bad.args[0]), norm(bad), const_str(bad.args[0])), where=fi.where(bad))
+    else:
+        run.violated(key, 'neither sign fallback protects the first character: `%s`' % norm(sib[0]), where=fi.where(sib[0]))
+    # and they insert an exponent marker
+    for c in sib:
+        a, b = const_str(c.args[0]), const_str(c.args[1])
+        good = b is not None and b.lower().startswith('e') and (b[1:] in ('', a))
+        run.check(good, 'fixed_format_file.fortran_float :: %r fallback inserts an exponent marker' % a,
+                  'replaces %r by %r' % (a, b), where=fi.where(c))
+
+
 def _is_fortran_partial(prog, modname, name, target):
     """name = partial(<target>, blank_value = None)"""
     v, w = prog.resolve_global(modname, name)
@@ -384,4 +516,5 @@ def rule_whocall(run):
 
 def check(run):
     run.guarded('EXC', rule_exc)
+    run.guarded('NORMFLOW', rule_normflow)
     run.guarded('WHOCALL', rule_whocall)
